@@ -21,6 +21,8 @@ def run(req):
         return _frame(a)
     if fn == "linop.check":
         return _linop(a)
+    if fn == "app.run_loop":
+        return _app_run(a)
     if fn == "alg.loop":
         return _loop(a)
     if fn == "alg.power":
@@ -906,3 +908,24 @@ def _fft(a):
         if abs(np.linalg.norm(got) - np.linalg.norm(x)) > 10 * tol * max(1, np.linalg.norm(x)):
             bad.append("norm not preserved")
     return dict(reproduced=bool(bad), detail="; ".join(bad) or "matches the centred DFT definition")
+
+
+def _app_run(a):
+    import sigpy as sp
+    bad = []
+    for mi in range(0, 4):
+        for pbar in (False, True):
+            x = np.zeros(3)
+            alg = sp.alg.GradientMethod(lambda v: v - 1.0, x, 0.5, max_iter=mi, tol=-1)
+            calls = {"u": 0}
+            orig = alg.update
+
+            def upd(orig=orig):
+                calls["u"] += 1
+                orig()
+            alg.update = upd
+            app = sp.app.App(alg, show_pbar=pbar)
+            app.run()
+            if calls["u"] != mi or alg.iter != mi:
+                bad.append("App.run performed %d updates (iter=%d) for max_iter=%d, show_pbar=%s" % (calls["u"], alg.iter, mi, pbar))
+    return dict(reproduced=bool(bad), detail="; ".join(bad[:3]) or "App.run performs exactly max_iter updates")
